@@ -36,6 +36,10 @@ def payload_cell(P, A):
     dec_ids = (new_ids[0], new_ids[-1])
     if P.get('blank_new') is not None:
         new_ids[P['blank_new']] = None        # a carried element whose ID tag is blank arrives like that
+    if P.get('dup_new') is not None:
+        # a carried element whose ID another element of the container already has (replacements and item inserts
+        # do not de-duplicate): it arrives all the same
+        new_ids[P['dup_new']] = ids[A['d']]
     if level == 'story':
         stories = [B.story(s, slug='ss', timing=B.timing_block(dur='10'),
                            body=[T('p', 'x'), B.item('I', extra=B.decoys(*dec_ids))])
@@ -77,8 +81,10 @@ def payload_cell(P, A):
             sig = 'wrong-position'
         else:
             kids = cont.findall('story') if level == 'story' else cont.findall('item')
-            for n, s in zip(new_ids, sent):
-                el = kids[idx_of(after, n)]
+            kind_ = op.replace('EA', '').replace('ro', '').replace('Story', '').replace('Item', '')
+            start = len(before) if (kind_ == 'Append' or t is None) else t      # where the carried elements begin
+            for j, s in enumerate(sent):
+                el = kids[start + j]
                 if B.snap(el) != s:
                     sig = 'carried-content-altered'
                     break
